@@ -1,6 +1,6 @@
 (** C17 — configured socket buffer sizes reach the matching socket option.
     Property theorems only; closed by lemmas of Proofs/SockCfg.v. *)
-From Coq Require Import List NArith Bool.
+From Coq Require Import List NArith Bool Permutation.
 From Scion Require Import Lib.Check Model.SockCfg Proofs.SockCfg.
 Import ListNotations.
 Import SockCfg.
@@ -45,6 +45,31 @@ Theorem C17_socket_oracle_holds_on_model : forall c reuse dr ds links m,
   model_chain c reuse dr ds links = Some m -> forallb (sock_ok c dr ds) m = true.
 Proof. exact model_chain_ok. Qed.
 Print Assumptions C17_socket_oracle_holds_on_model.
+
+(** Whole configurations.  For every router configuration and every LIST of configured links
+    (any kinds, any provider origins, any number, any order): the run is defined, every link
+    contributes exactly one observation that depends on that link alone, and this observation
+    is the pair (configured receive, configured send) — or "no socket" precisely for a sibling
+    link sharing the internal socket.  Reordering the links only reorders the observations.
+    (The per-link theorems above are definitional unfoldings of the straight-line model; what
+    ties them to the code is the correspondence oracle, see spec/C17.json.) *)
+Theorem C17_all_links : forall c reuse links,
+  Forall (fun l => kind_of (fst l) <> None) links ->
+  exists m, model_links c reuse links = Some m /\
+    Forall2 (fun l o =>
+      (o = Some (rc_receive c, rc_send c) /\ ~ (kind_of (fst l) = Some Sibling /\ reuse = false)) \/
+      (o = None /\ kind_of (fst l) = Some Sibling /\ reuse = false)) links m /\
+    forall links', Permutation links links' ->
+      exists m', model_links c reuse links' = Some m' /\ Permutation m m'.
+Proof.
+  intros c reuse links Hk. destruct (model_links_total c reuse links Hk) as [m Hm].
+  exists m. split; [assumption|]. split.
+  - apply model_links_pointwise in Hm. clear Hk. induction Hm as [|l o t mt H _ IH].
+    + constructor.
+    + constructor; [now apply (link_obs_value c reuse)|exact IH].
+  - intros links' HP. now apply (model_links_perm c reuse links links' m).
+Qed.
+Print Assumptions C17_all_links.
 
 (** Non-vacuity: distinct sizes, all three link kinds, both provider origins; and the oracle
     rejects the swapped observation. *)
